@@ -240,7 +240,7 @@ func isStateWrite(c *ssa.CallCommon) (string, bool) {
 	switch n {
 	case pkgCurr + ".AddCoin", pkgCurr + ".MinusCoin", pkgCurr + ".MultCoin", pkgCurr + ".AddInt64", pkgCurr + ".MinusInt64",
 		pkgCurr + ".Float64ToCoin", pkgCurr + ".Int64ToCoin", pkgCurr + ".MultFloat64", pkgCurr + ".DivideCoin", pkgCurr + ".DistributeCoin":
-		return "currency." + m, true
+		return "currency." + m, true // category "arith": callers filter by prefix
 	}
 	rt := core.RecvTypeName(c)
 	if strings.HasPrefix(rt, "0chain.net/smartcontract/") {
